@@ -217,9 +217,12 @@ impl Format {
                         })?;
                     }
                     break;
-                } else if char == 'Z' {
-                    // This is a single character to represent UTC
-                    // UTC is the default time scale, so we don't need to do anything.
+                }
+
+                // A `Z` that is not the separator the format asks for stands for UTC and ends the input:
+                // UTC is the default time scale, so only the field in front of it remains to be stored.
+                let zulu = char == 'Z' && !cur_item.sep_char_is(char);
+                if zulu && idx == prev_idx {
                     break;
                 }
 
@@ -241,7 +244,9 @@ impl Format {
                 prev_item = cur_item;
                 prev_token = cur_token;
 
-                let end_idx = if idx != s.len() - 1 || !char.is_numeric() {
+                let end_idx = if zulu {
+                    idx
+                } else if idx != s.len() - 1 || !char.is_numeric() {
                     // Only advance the token if we aren't at the end of the string
                     if cur_item.sep_char_is_not(char)
                         && (cur_item.second_sep_char.is_none()
@@ -378,6 +383,10 @@ impl Format {
                             }
                         }
                     }
+                }
+
+                if zulu {
+                    break;
                 }
 
                 prev_idx = idx + 1;
